@@ -15,6 +15,8 @@ import vlib
 
 CORPUS = os.path.join(vlib.ROOT, "corpus")
 TLC_ENV = {"JAVA_TOOL_OPTIONS": "-Dfile.encoding=UTF-8"}      # TLC strings then carry non-ASCII text unchanged
+JOBS = max(1, int(os.environ.get("VERIF_JOBS", "4")))          # harness worker processes (shared machine: keep it small)
+XMX = "3g"                                                     # TLC heap
 
 _OPS = ["\"\"\"", "->", "==", "!=", "<=", ">=", "+=", "-=", "*=", "/=", "%=", ".."]
 _LEX = re.compile(
@@ -88,16 +90,15 @@ def encodable(text):
 
 # ------------------------------------------------------------------ C04 / C34 driver (shared)
 import collections
-import threading
 import time
 
 TIERS = {
     # n_random: behaviours of the random enumerator; maxsolid/souplen/skeldiag: bounds of the exhaustive one;
     # max_bytes: corpus programs larger than this are left out (None = whole corpus)
-    "C04": {"quick": dict(n_random=1000, maxsolid=0, souplen=1, skeldiag=0, truncpct=0, max_bytes=2500),
-            "thorough": dict(n_random=10000, maxsolid=5, souplen=1, skeldiag=1, truncpct=0, max_bytes=None)},
-    "C34": {"quick": dict(n_random=800, maxsolid=0, souplen=1, skeldiag=0, truncpct=35, max_bytes=2500),
-            "thorough": dict(n_random=9000, maxsolid=4, souplen=1, skeldiag=1, truncpct=35, max_bytes=None)},
+    "C04": {"quick": dict(n_random=600, maxsolid=0, souplen=1, skeldiag=0, truncpct=0, max_bytes=2500),
+            "thorough": dict(n_random=8000, maxsolid=3, souplen=1, skeldiag=1, truncpct=0, max_bytes=None)},
+    "C34": {"quick": dict(n_random=500, maxsolid=0, souplen=1, skeldiag=0, truncpct=35, max_bytes=2500),
+            "thorough": dict(n_random=8000, maxsolid=3, souplen=1, skeldiag=1, truncpct=35, max_bytes=None)},
 }
 
 
@@ -119,34 +120,19 @@ def generate(prop, tier, seed, wd):
                TRUNCPCT=par["truncpct"], OBS=os.devnull)
     mod = os.path.join(vlib.SPEC, "props", prop + ".tla")
     res = {}
-    err = []
-
-    def run(kind):
-        try:
-            if kind == "random":
-                r = vlib.tlc(mod, cfg=mod[:-4] + ".cfg", simulate=par["n_random"], depth=2, seed=seed, env=env,
-                             metadir=os.path.join(wd, "meta_r"), timeout=1500)
-            else:
-                r = vlib.tlc(mod, cfg=mod[:-4] + "x.cfg", env=env, metadir=os.path.join(wd, "meta_x"), timeout=1500)
-            vlib.tlc_ok(r, mod + " (" + kind + ")")
-            res[kind] = r
-        except Exception as e:  # noqa
-            err.append(e)
-
-    ths = [threading.Thread(target=run, args=(k,)) for k in ("random", "exhaustive")]
-    for t in ths:
-        t.start()
-    for t in ths:
-        t.join()
-    if err:
-        raise err[0] if isinstance(err[0], vlib.ToolError) else vlib.ToolError(str(err[0]))
+    # one TLC process at a time
+    res["random"] = vlib.tlc(mod, cfg=mod[:-4] + ".cfg", simulate=par["n_random"], depth=2, seed=seed, env=env,
+                             metadir=os.path.join(wd, "meta_r"), timeout=1500, xmx=XMX)
+    vlib.tlc_ok(res["random"], mod + " (random)")
+    res["exhaustive"] = vlib.tlc(mod, cfg=mod[:-4] + "x.cfg", env=env, metadir=os.path.join(wd, "meta_x"), timeout=1500, xmx=XMX)
+    vlib.tlc_ok(res["exhaustive"], mod + " (exhaustive)")
     cases = []
     for kind in ("exhaustive", "random"):
         for c in res[kind].cases():
             c["src"] = kind
             cases.append(c)
     info = {"corpus_programs": len(rows), "tlc_random_states": res["random"].generated,
-            "tlc_exhaustive_states": res["exhaustive"].distinct, "tlc_wall_s": round(max(r.wall for r in res.values()), 1),
+            "tlc_exhaustive_states": res["exhaustive"].distinct, "tlc_wall_s": round(sum(r.wall for r in res.values()), 1),
             "generated_random": sum(1 for c in cases if c["src"] == "random"),
             "generated_exhaustive": sum(1 for c in cases if c["src"] == "exhaustive")}
     return cases, info, par
@@ -179,7 +165,7 @@ def validate(prop, wd, rows):
     open(empty, "w").close()
     mod = os.path.join(vlib.SPEC, "props", prop + ".tla")
     env = dict(TLC_ENV, CORPUS=empty, MAXSOLID=0, SOUPLEN=0, SKELDIAG=0, TRUNCPCT=0, OBS=obs_path)
-    r = vlib.tlc(mod, cfg=mod[:-4] + "v.cfg", env=env, metadir=os.path.join(wd, "meta_v"), timeout=900)
+    r = vlib.tlc(mod, cfg=mod[:-4] + "v.cfg", env=env, metadir=os.path.join(wd, "meta_v"), timeout=900, xmx=XMX)
     vlib.tlc_ok(r, mod + " (validation)")
     if r.distinct != len(rows):
         raise vlib.ToolError("validation covered %d of %d observations" % (r.distinct, len(rows)))
@@ -200,7 +186,7 @@ def confirm_crashes(hcases, obs, wd, fields, extra_modes=()):
         again.append(hcases[i])
         for m in extra_modes:
             again.append(dict(hcases[i], id=hcases[i]["id"] + "#" + m, mode=m))
-    o2, wall = vlib.run_harness(again, wd, name="confirm", jobs=min(8, len(again)), timeout=10)
+    o2, wall = vlib.run_harness(again, wd, name="confirm", jobs=min(JOBS, len(again)), timeout=10)
     second = {c["id"]: o for c, o in zip(again, o2)}
     confirmed = flaky = 0
     for i in idx:
